@@ -93,7 +93,28 @@ def _r1(ck: Checker, prog: Program):
     f = prog.func("processing._rpds_single_component")
     q = f.qualname
     loops = [st for st in f.node.body if isinstance(st, ast.For)]
-    if len(loops) != 1 or unparse(loops[0].iter) != f.params[0] or not isinstance(loops[0].target, ast.Name):
+    from .procmodel import COMPONENT_PARAMS, psd_data_param
+    data_param = psd_data_param(prog)
+    series_name = data_param
+    comp_param = next((p_ for p_ in list(f.params) + list(f.kwonly) if p_ in COMPONENT_PARAMS), None)
+    if comp_param is not None:
+        # the helper receives the records and the name of a component: the series it works on are exactly that component of
+        # every record, in order
+        ext = [st for st in f.node.body if isinstance(st, ast.Assign) and len(st.targets) == 1 and isinstance(st.targets[0], ast.Name)
+               and isinstance(st.value, (ast.ListComp, ast.GeneratorExp))]
+        good = None
+        for st in ext:
+            c = st.value
+            if len(c.generators) == 1 and not c.generators[0].ifs and unparse(c.generators[0].iter) == data_param and isinstance(c.generators[0].target, ast.Name) \
+                    and isinstance(c.elt, ast.Call) and call_name(c.elt) == "getattr" and len(c.elt.args) == 2 \
+                    and unparse(c.elt.args[0]) == c.generators[0].target.id and unparse(c.elt.args[1]) == comp_param:
+                good = st
+        if good is None:
+            ck.violation("C17.R1", q, "component extraction", f"the helper is given the records and `{comp_param}` but does not work on `getattr(record, {comp_param})` of every record", loc=f.loc())
+            raise AnalysisError(f"{q}: component extraction not recognised")
+        series_name = good.targets[0].id
+        ck.ok("C17.R1", q, f"works on getattr(record, {comp_param}) of every record, in order", nontrivial=False)
+    if len(loops) != 1 or unparse(loops[0].iter) != series_name or not isinstance(loops[0].target, ast.Name):
         raise AnalysisError(f"{q}: loop over the windows not found")
     lp = loops[0]
     ts = lp.target.id
@@ -139,7 +160,12 @@ def _r1(ck: Checker, prog: Program):
     ex.run([st for st in after if not isinstance(st, ast.Return)])
     final = ex.T.env.get(acc_name)
     # every copy of the window has the window's length and sampling rate
-    L, fs, K = sp.Symbol("L", positive=True), sp.Symbol("fs", positive=True), sp.Function("len")(ex.T.sym(f.params[0]))
+    L, fs, K = sp.Symbol("L", positive=True), sp.Symbol("fs", positive=True), sp.Function("len")(ex.T.sym(data_param))
+    if series_name != data_param and final is not None:
+        # one series per record: as many windows as records
+        final = final.xreplace({sp.Function("len")(ex.T.sym(series_name)): K})
+        for v_ in list(final.free_symbols):
+            pass
     if final is not None:
         final = final.replace(lambda e: e.is_Symbol and e.name.startswith("<") and e.name.endswith(".n_samples"), lambda e: L)
         final = final.replace(lambda e: e.is_Symbol and e.name.startswith("<") and e.name.endswith(".fs"), lambda e: fs)
@@ -203,8 +229,11 @@ def _r2(ck: Checker, prog: Program):
     comp, gen = sp.Function("comp"), sp.Function("gen")
     gi = sp.Function("getitem")
 
+    from .procmodel import psd_source
+    PSD_SRC = psd_source(prog)
+
     def psd_of(c):
-        return sp.Function("_rpds_single_component")(comp(sp.Function("attr_" + c)(it0), gen(it0, RECS)), SET)
+        return pt._T({}).tr(ast.parse(PSD_SRC.format(c=c), mode="eval").body)
     comps = ("ns", "ew", "vt")
     no_sm = sp.Eq(sp.Function("attr_smoothing")(SET), sp.Symbol("None"), evaluate=False)
     seen = set()
